@@ -30,22 +30,24 @@ ASSUMPTIONS = ["Distribution.draw_mw stubbed (same targets handed to both runs)"
 OUTSIDE = ["histories longer than 1 (quick) / 2 (thorough) operations between the two generations (each history also contains run A itself)", "System.generator (cannot be handed a generator)", "force-field typing inside histories (covered by C20)"]
 REQUIRED_LABELS = ["same molecule after any history", "same options and probabilities at every decision after any history", "parsed object unchanged by the operation", "global generator untouched"]
 
-SK = ["homo-prefix-suffix", "left-terminal-list", "endgroup-initiated", "block-with-connector", "random-copolymer-weighted", "star-three-descriptors"]
-SECOND = [0, 3, 4, 5, 9]  # generate, reaction-graph, atom-graph, mirror, parse-again
-OPS = ["generate", "str", "print-without-extensions", "reaction-graph", "atom-graph", "mirror", "elements", "residues", "generable", "parse-again", "global-rng-draw"]
+SK = ["homo-prefix-suffix", "left-terminal-list", "endgroup-initiated", "chain-stopper-unit", "block-with-connector", "random-copolymer-weighted", "star-three-descriptors"]
+SECOND = [0, 3, 4, 5, 9, 11]  # generate, reaction-graph, atom-graph, mirror, parse-again, generate-same-stream
+OPS = ["generate", "str", "print-without-extensions", "reaction-graph", "atom-graph", "mirror", "elements", "residues", "generable", "parse-again", "global-rng-draw",
+       "generate-same-stream", "mirror-generate"]
 
 
 def bounds(tier):
-    return {"skeletons": SK if tier == "thorough" else SK[:4], "history length": "1 (quick); thorough: 1 at N=2 and 2 at N=1 with the second operation from {generate, reaction-graph, atom-graph, mirror, parse-again}",
+    return {"skeletons": SK if tier == "thorough" else SK[:5], "history length": "1 (quick); thorough: 1 at N=2 and 2 at N=1 with the second operation from {generate, reaction-graph, atom-graph, mirror, parse-again}",
             "operations": OPS, "units per block": 1 if tier == "quick" else 2}
 
 
 def cases(tier):
     out = []
-    sk = [s for s in gendrive.SKELETONS if s["name"] in (SK if tier == "thorough" else SK[:4])]
+    sk = [s for s in gendrive.SKELETONS if s["name"] in (SK if tier == "thorough" else SK[:5])]
     for s in sk:
         for first in range(len(OPS)):
             out.append({"name": f"{s['name']}/h1/first={OPS[first]}", "skel": s, "hl": 1, "first": first, "N": 1 if tier == "quick" else 2})
+    out.append({"name": "static-initiator/result-used-as-prefix", "kind": "prefix-reuse"})
     if tier == "thorough":
         # two operations between the generations (second one from the state-changing candidates), N = 1
         for s in sk[:3]:
@@ -73,8 +75,31 @@ def apply_roles(mol, roles):
                 bd.weight = v
 
 
-def run_op(c, g, op, mol, stream_seed):
-    """one history operation on an instance; returns nothing"""
+def run_op(c, g, op, mol, stream_seed, same=None):
+    """one history operation on an instance; returns nothing.  same = (picks, targets, others) of run A for the operations
+    that repeat its stream"""
+    if op == 11:
+        # the instance generates with the very stream of run A (same string, same seed, same instance, once more)
+        picks, targets, others = same
+        gen.DRAW_FN[0] = gen.scripted_draw(list(targets))
+        try:
+            mol.generate(rng=FixedRng(picks, others))
+        except gendrive.ReplayDone:
+            pass
+        return
+    if op == 12:
+        # the mirror of the instance is taken and generated (it shares nothing with the instance)
+        mir = mol.gen_mirror()
+        if mir is not None and mir.generable:
+            gen.DRAW_FN[0] = gen.scripted_draw([30.0 + stream_seed] * 8)
+            try:
+                mir.generate(rng=FixedRng([0] * 300))
+            except gendrive.ReplayDone:
+                pass
+            except Exception as e:
+                if c is not None:
+                    core.reraise_if_harness(e)
+        return
     if op == 0:
         gen.DRAW_FN[0] = gen.scripted_draw([30.0 + stream_seed] * 8)
         try:
@@ -103,7 +128,52 @@ def run_op(c, g, op, mol, stream_seed):
         sys.modules["gbigsmiles.core"]._GLOBAL_RNG.random(3)
 
 
+INITIATOR = "OCC[>]"
+GROWER = "{[>][<]CC[>], [<]CO[>]; [<][H][]}|gauss(50,5)|"
+
+
+def run_prefix_reuse(case, g, tier, res):
+    """the molecule a static (single-token) initiator generated is handed on as prefix of another generation (which grows it in
+    place): later generations of the initiator instance, and of other instances of the same string, are unaffected"""
+    on_path = collector(res, PROPERTY)
+
+    def h(c):
+        A = g.Molecule(INITIATOR)
+        ra = A.generate(rng=FixedRng([0] * 10))
+        smiA, wA = ra.smiles, ra.weight
+        sA = (str(A), A.generate_string(False), A.generable)
+        P = g.Molecule(GROWER)
+        roles = gen.symbolize_weights(c, P)
+        obs = gen.Observer()
+        gen.install_observers(g, obs)
+        gen.OBS[0] = obs
+        gen.DRAW_FN[0] = gen.symbolic_draw(gendrive.block_bounds(g, P, 2))
+        rng = SymRng()
+
+        def detail(what):
+            def build(mv, c):
+                return (f"C10:{what}", f"{what} [{INITIATOR} used as prefix of {GROWER}] picks={[r.index for r in rng.calls]}",
+                        {"kind": "prefix-reuse", "weights": gendrive.role_values(c, mv, roles), "picks": [r.index for r in rng.calls],
+                         "targets": [float(c.eval_in(mv, t)) for (_, t, _) in obs.draws], "what": what})
+            return build
+
+        try:
+            grown = P.generate(prefix=ra, rng=rng)
+        finally:
+            gen.OBS[0] = None
+        for who, inst in (("the same instance", A), ("another instance of the same string", g.Molecule(INITIATOR))):
+            r2 = inst.generate(rng=FixedRng([0] * 10))
+            c.prove(r2.smiles == smiA and r2.weight == wA, "same molecule after any history",
+                    detail(f"{who} generates another molecule after an earlier result was used as a prefix"))
+        c.prove((str(A), A.generate_string(False), A.generable) == sA, "printed forms and generability unchanged", detail("printed form changed"))
+        return grown.smiles
+
+    explore_case(res, h, tier, on_path=on_path, budget_s=600)
+
+
 def run_case(case, g, tier, res):
+    if case.get("kind") == "prefix-reuse":
+        return run_prefix_reuse(case, g, tier, res)
     on_path = collector(res, PROPERTY)
     skel, hl, first, N = case["skel"], case["hl"], case["first"], case["N"]
     text = skel["text"]
@@ -162,7 +232,12 @@ def run_case(case, g, tier, res):
             on = c.fresh_int(f"on{k}", 0, 1).__index__()
             hist.append((op, on))
             st = copy.deepcopy(core_mod._GLOBAL_RNG.bit_generator.state)
-            run_op(c, g, op, B if on == 0 else T, k)
+            try:
+                run_op(c, g, op, B if on == 0 else T, k, same=(picks, targets, rng.other_calls))
+            except Exception as e:
+                core.reraise_if_harness(e)
+                # (the fixed picks of the plain 'generate' operation may select an option of probability zero: its exceptions mean nothing)
+                c.prove(op != 11, "a repeated generation does not raise", detail(f"{OPS[op]} raised {type(e).__name__} on an instance that generated before"))
             if op != 10:
                 c.prove(core_mod._GLOBAL_RNG.bit_generator.state == st, "global generator untouched", detail(f"{OPS[op]} consumed the global generator"))
             c.prove(tree_eq(digest(g, B)[0], dB0[0]) and digest(g, B)[1:] == dB0[1:], "parsed object unchanged by the operation", detail(f"{OPS[op]} changed a parsed object"))
@@ -197,6 +272,25 @@ def replay(rp, gb):
     import numpy as np
     from gbigsmiles import core as gcore
 
+    if rp.get("kind") == "prefix-reuse":
+        A = gb.Molecule(INITIATOR)
+        ra = A.generate(rng=FixedRng([0] * 10))
+        smiA, wA = ra.smiles, ra.weight
+        P = gb.Molecule(GROWER)
+        gendrive.apply_role_values(gen, P, rp["weights"])
+        gen.install_observers(gb, gen.Observer())
+        gen.DRAW_FN[0] = gen.scripted_draw(list(rp["targets"]))
+        try:
+            P.generate(prefix=ra, rng=gendrive.ScriptedRng(rp["picks"]))
+        except gendrive.ReplayDone:
+            return False, "stream ended"
+        bad = []
+        for inst in (A, gb.Molecule(INITIATOR)):
+            r2 = inst.generate(rng=FixedRng([0] * 10))
+            if r2.smiles != smiA or abs(r2.weight - wA) > 1e-9:
+                bad.append(r2.smiles)
+        return bool(bad), f"initiator generated {smiA} first, later {bad}"
+
     text = rp["text"]
 
     def fresh():
@@ -230,7 +324,11 @@ def replay(rp, gb):
     dB = _plain_digest(gb, B)
     for k, (op, on) in enumerate(rp["history"]):
         st = copy.deepcopy(gcore._GLOBAL_RNG.bit_generator.state)
-        run_op(None, gb, op, B if on == 0 else T, k)
+        try:
+            run_op(None, gb, op, B if on == 0 else T, k, same=(rp["picks"], rp["targets"], []))
+        except Exception as e:
+            if op == 11:
+                problems.append(f"{OPS[op]} raised {type(e).__name__} on an instance that generated before")
         if op != 10 and gcore._GLOBAL_RNG.bit_generator.state != st:
             problems.append(f"{OPS[op]} consumed the global generator")
         if _plain_digest(gb, B) != dB:
